@@ -895,7 +895,41 @@ def _callee_key(c):
     return c.replace("core::", "").replace("std::", "")
 
 
-def fold(t, assume, discr=None):
+def table_helpers(F):
+    """Crate-local one-parameter functions that are pure enum->literal tables (e.g. `fn en_passant_row(&self) -> i8 { match self {..} }`):
+    {path: (param name, summary)}.  `fold` can see through calls to them (one level of helper inlining)."""
+    cache = getattr(F, "_table_helpers", None)
+    if cache is not None:
+        return cache
+    out = {}
+    for path, fn in F.fns.items():
+        if fn.get("kind") == "Closure" or not fn.get("hir") or len(fn["hir"].get("params") or []) != 1:
+            continue
+        prm = fn["hir"]["params"][0]["pat"]
+        if prm.get("k") != "PBind":
+            continue
+        try:
+            nf = Exec(fn["hir"], F).run()
+        except (Unsupported, RecursionError, KeyError, TypeError):
+            continue
+        ok = True
+        for x in subterms(nf):
+            if not x:
+                continue
+            h = x[0]
+            if h in ("call", "field", "index", "closure", "str", "ctor", "struct", "deep", "unsupported", "ret", "block"):
+                ok = False
+                break
+            if h == "var" and x[1] != prm["name"]:
+                ok = False
+                break
+        if ok and nf and nf[0] in ("match", "if", "lit", "variant"):
+            out[path] = (prm["name"], nf)
+    F._table_helpers = out
+    return out
+
+
+def fold(t, assume, discr=None, helpers=None):
     """Constant folding of a normal form under assumptions.
     assume: dict normal-form -> normal-form (e.g. ("field",("var","self"),"owner") -> ("variant", "chess::Player::Black"))
     discr: dict variant path -> integer discriminant (for `as` casts of field-less enums)."""
@@ -1014,6 +1048,9 @@ def fold(t, assume, discr=None):
             return ("match", sc, tuple((p, g, f(b)) for p, g, b in t[2]))
         if h == "call":
             args = tuple(f(x) for x in t[2])
+            if helpers and isinstance(t[1], str) and t[1] in helpers and len(args) == 1:
+                pname, body = helpers[t[1]]
+                return f(subst(body, {("var", pname): args[0]}))
             ck = _callee_key(t[1])
             if ck in CHAR_FNS and args and args[0][0] == "lit" and isinstance(args[0][1], str):
                 return ("lit", CHAR_FNS[ck](args[0][1]))
